@@ -20,8 +20,11 @@ var verbose = flag.Bool("v", false, "print per-configuration statistics")
 // runUnit enumerates the configurations of the selected unit (sharded) and explores each.
 func runUnit(res *common.Result) {
 	var idx int64
-	aliasAll, errKind, sharedAll := 0, 0, false
+	aliasAll, errKind, sharedAll, attrsAll := 0, 0, false, 0
 	each := func(cfg Cfg, bound int, quiescentOnly, prune bool) bool {
+		if attrsAll != 0 {
+			cfg.Attrs = attrsAll
+		}
 		if aliasAll != 0 {
 			cfg.Alias = aliasAll
 		}
@@ -198,6 +201,21 @@ func runUnit(res *common.Result) {
 	case "nested-shared-orders":
 		sharedAll = true
 		nested(func(c Cfg) bool { return each(c, 0, true, *pruneFlag) })
+	case "dag3-attrs-orders": // task attributes that must not matter to the scheduler, one at a time
+		for _, attrsAll = range []int{1, 2, 4, 8, 16} {
+			dags(1, 3, sigma, 0, true, *pruneFlag, nil)
+		}
+	case "nested-attrs-orders":
+		for _, attrsAll = range []int{1, 2} {
+			nested(func(c Cfg) bool { return each(c, 0, true, *pruneFlag) })
+		}
+	case "shared-inner-orders": // two stages of one pipeline include the SAME pipeline object
+		sharedInner(func(c Cfg) bool { return each(c, 0, true, *pruneFlag) })
+	case "shared-inner-b1":
+		res.Bound = 1
+		sharedInner(func(c Cfg) bool { return each(c, 1, false, *pruneFlag) })
+	case "wide-b0": // sizes beyond the small ones: 17..65 stages, canonical order (tasks do not park)
+		wide(func(c Cfg) bool { return each(c, 0, false, *pruneFlag) })
 	case "cancel-nested-b0":
 		cancelNested(func(c Cfg) bool { return each(c, 0, false, *pruneFlag) })
 	case "cancel-nested-b1": // a condition that cannot be evaluated inside a nested pipeline; external Cancel with a nested pipeline in flight
@@ -356,6 +374,93 @@ func skeletons(f func(Cfg) bool, sigma []int) {
 
 // cancelFamily: DAG<=n with all-ok outcomes plus (a) one stage whose condition cannot be
 // evaluated, (b) an external Cancel.
+// sharedInner: outer DAG on 2..3 stages, two of them include one and the same inner pipeline (<=2 stages,
+// outcomes from Sigma); the remaining outer stage, if any, is a plain task.
+func sharedInner(f func(Cfg) bool) {
+	inner := []string{"x", "y"}
+	for n := 2; n <= 3; n++ {
+		for _, deps := range allDAGs(n) {
+			for p := 0; p < n; p++ {
+				for q := p + 1; q < n; q++ {
+					for in := 1; in <= 2; in++ {
+						for _, ideps := range allDAGs(in) {
+							stop := false
+							forEachOutcome(in, []int{0, 1, 2, 3}, func(iouts []int) {
+								if stop {
+									return
+								}
+								for _, allow := range []bool{false, true} {
+									g := mkGraph(deps, make([]int, n), names)
+									ig1 := mkGraph(ideps, iouts, inner)
+									ig2 := mkGraph(ideps, iouts, inner)
+									g.Stages[p].Inner, g.Stages[q].Inner = &ig1, &ig2
+									g.Stages[p].Allow, g.Stages[q].Allow = allow, allow
+									if f(Cfg{G: g, SharedInner: true}) {
+										stop = true
+										return
+									}
+								}
+							})
+							if stop {
+								return
+							}
+						}
+					}
+				}
+			}
+		}
+	}
+}
+
+// wide: flat and one-level graphs with 17..65 stages.
+func wide(f func(Cfg) bool) {
+	for _, n := range []int{17, 20, 33, 65} {
+		nm := make([]string, n)
+		for i := range nm {
+			nm[i] = fmt.Sprintf("s%02d", i)
+		}
+		for _, shape := range []string{"independent", "fan-out", "fan-in", "chain"} {
+			for _, out := range []string{"ok", "all-fail", "all-allowed", "root-fails", "alternate"} {
+				deps := make([][]int, n)
+				outs := make([]int, n)
+				for i := 0; i < n; i++ {
+					switch shape {
+					case "fan-out":
+						if i > 0 {
+							deps[i] = []int{0}
+						}
+					case "fan-in":
+						if i == n-1 {
+							for j := 0; j < n-1; j++ {
+								deps[i] = append(deps[i], j)
+							}
+						}
+					case "chain":
+						if i > 0 {
+							deps[i] = []int{i - 1}
+						}
+					}
+					switch out {
+					case "all-fail":
+						outs[i] = 1
+					case "all-allowed":
+						outs[i] = 2
+					case "root-fails":
+						if i == 0 {
+							outs[i] = 1
+						}
+					case "alternate":
+						outs[i] = i % 4
+					}
+				}
+				if f(Cfg{G: mkGraph(deps, outs, nm), NoPark: true}) {
+					return
+				}
+			}
+		}
+	}
+}
+
 // cancelNested: outer DAG on <=2 stages, one of them a nested pipeline of <=2 stages; one inner stage has a
 // condition that cannot be evaluated, or the run is cancelled from outside.
 func cancelNested(f func(Cfg) bool) {
